@@ -45,7 +45,7 @@ func call(name string, args ...ast.Expr) *ast.CallExpr {
 }
 
 var renames = map[string]map[string]string{
-	"sync": {"Mutex": "Mutex", "RWMutex": "RWMutex", "WaitGroup": "WaitGroup", "Once": "Once"},
+	"sync": {"Mutex": "Mutex", "RWMutex": "RWMutex", "WaitGroup": "WaitGroup", "Once": "Once", "Pool": "Pool", "Map": "Map"},
 	"sync/atomic": {"Bool": "AtomicBool", "Uint64": "AtomicUint64", "Int64": "AtomicInt64", "Int32": "AtomicInt32", "Uint32": "AtomicUint32", "Pointer": "AtomicPointer",
 		"LoadPointer": "LoadPointer", "CompareAndSwapPointer": "CompareAndSwapPointer", "StorePointer": "StorePointer", "SwapPointer": "SwapPointer",
 		"LoadUint64": "LoadUint64", "AddUint64": "AddUint64", "StoreUint64": "StoreUint64", "CompareAndSwapUint64": "CompareAndSwapUint64"},
@@ -54,15 +54,16 @@ var renames = map[string]map[string]string{
 
 // unsupported selectors: their appearance in a rewritten file is a loud harness error
 var unsupported = map[string][]string{
-	"sync":        {"Cond", "Map", "Pool"},
+	"sync":        {"Cond"},
 	"sync/atomic": {"Value", "AddInt32", "AddInt64", "LoadInt32", "LoadInt64", "StoreInt32", "StoreInt64", "CompareAndSwapInt32", "CompareAndSwapInt64"},
 	"time":        {"NewTimer", "NewTicker", "Tick"},
 }
 
 type spec struct {
-	dir    string
-	only   map[string]bool
-	yields bool
+	dir      string
+	only     map[string]bool
+	yields   bool
+	noaccess bool // no plain-access instrumentation (the hot sequential packages of the yields build)
 }
 
 func main() {
@@ -70,6 +71,7 @@ func main() {
 	root := flag.String("root", "/verif", "verif root (for the vendored stdlib)")
 	repo := flag.String("repo", "/repo", "repository under test")
 	yields := flag.Bool("yields", false, "also add function-entry yields to the sequential packages")
+	access := flag.Bool("access", true, "wrap plain memory accesses for the happens-before race detector")
 	flag.Parse()
 	if *out == "" {
 		fmt.Fprintln(os.Stderr, "rewrite: -out required")
@@ -96,12 +98,12 @@ func main() {
 			{dir: *repo + "/pkg/engine"},
 			{dir: *repo + "/pkg/engine/uci"},
 			{dir: *repo + "/pkg/search/searchctl"},
-			{dir: *repo + "/pkg/search", yields: true},
-			{dir: *repo + "/pkg/eval", yields: true},
-			{dir: *repo + "/pkg/board", yields: true},
-			{dir: *repo + "/cmd/sargon/sargon", yields: true},
-			{dir: *repo + "/cmd/turochamp/turochamp", yields: true},
-			{dir: *repo + "/cmd/bernstein/bernstein", yields: true},
+			{dir: *repo + "/pkg/search", yields: true, noaccess: true},
+			{dir: *repo + "/pkg/eval", yields: true, noaccess: true},
+			{dir: *repo + "/pkg/board", yields: true, noaccess: true},
+			{dir: *repo + "/cmd/sargon/sargon", yields: true, noaccess: true},
+			{dir: *repo + "/cmd/turochamp/turochamp", yields: true, noaccess: true},
+			{dir: *repo + "/cmd/bernstein/bernstein", yields: true, noaccess: true},
 			{dir: *root + "/third_party/stdlib/pkg/util/iox", only: only("closer.go")},
 			{dir: *root + "/third_party/stdlib/pkg/util/contextx"},
 		}
@@ -122,10 +124,15 @@ func main() {
 				files = append(files, f)
 				names = append(names, fn)
 			}
-			info := &types.Info{Types: map[ast.Expr]types.TypeAndValue{}, Uses: map[*ast.Ident]types.Object{}}
+			info := &types.Info{Types: map[ast.Expr]types.TypeAndValue{}, Uses: map[*ast.Ident]types.Object{}, Defs: map[*ast.Ident]types.Object{}, Selections: map[*ast.SelectorExpr]*types.Selection{}}
 			conf := types.Config{Importer: importer.ForCompiler(fset, "source", nil), Error: func(err error) {}}
-			if _, err := conf.Check(name, fset, files, info); err != nil {
+			tpkg, err := conf.Check(name, fset, files, info)
+			if err != nil {
 				fmt.Println("typecheck (continuing):", err)
+			}
+			var instr map[types.Object]bool
+			if *access && !sp.noaccess {
+				instr = analyseIdents(files, info, tpkg)
 			}
 			for i, f := range files {
 				if len(sp.only) > 0 && !sp.only[filepath.Base(names[i])] {
@@ -133,7 +140,12 @@ func main() {
 				}
 				f.Comments = nil
 				f.Doc = nil
+				wrapped := 0
+				if *access && !sp.noaccess {
+					wrapped = instrumentAccesses(fset, f, info, instr)
+				}
 				changed, errs := rewriteFile(fset, f, info, sp.yields)
+				changed = changed || wrapped > 0
 				for _, e := range errs {
 					fmt.Fprintf(os.Stderr, "rewrite: %s: unsupported construct: %s\n", names[i], e)
 					failed = true
@@ -160,7 +172,7 @@ func main() {
 				}
 				dabs, _ := filepath.Abs(dst)
 				overlay[abs] = dabs
-				fmt.Println("rewrote", abs)
+				fmt.Println("rewrote", abs, "plain accesses wrapped:", wrapped)
 			}
 		}
 	}
@@ -295,7 +307,8 @@ func rewriteFile(fset *token.FileSet, f *ast.File, info *types.Info, yields bool
 				if n.Tok == token.DEC {
 					name = "PlainDec"
 				}
-				c.Replace(&ast.ExprStmt{X: call(name, &ast.UnaryExpr{Op: token.AND, X: n.X})})
+				pos := fset.Position(n.Pos())
+				c.Replace(&ast.ExprStmt{X: call(name, &ast.UnaryExpr{Op: token.AND, X: n.X}, &ast.BasicLit{Kind: token.STRING, Value: fmt.Sprintf("%q", fmt.Sprintf("%s:%d", filepath.Base(pos.Filename), pos.Line))})})
 				changed = true
 			}
 		case *ast.FuncDecl:
